@@ -24,6 +24,7 @@ RULE = (
     "StyleSet at construction / add_style / format(text, style=) with and without other tags. lines: every public method "
     "whose name ends in _line or _line_raw on IO, BufferedIO, Output, SectionOutput and section-IO x ANSI/plain x tagged/"
     "plain text. indent: all nestings (depth <= 3 quick, <= 4 thorough) of {IO.indent, IO.increment_indent, Output.indent, "
+    "Also: indentation of one column; increment scopes on one Output serving both streams; exceptions must leave a scope; separators other than line feed inside an indented line; blank / tab / NBSP texts in the line writers; decoration after set_stream(); tags unknown to a one-style set. "
     "Output.increment_indent} x n in {0,2,5} x exit {normal, raise first, raise last, KeyboardInterrupt}. non-trivial = "
     "message with >= 1 tag / style with >= 2 properties / nesting depth >= 2; distinct by message string, style tuple x "
     "route, method cell, scope tuple."
